@@ -3,9 +3,13 @@
     previous default-channel token exists and is none of SEMI, MacroLabel, %then, %else, and the
     token that follows is a macro statement keyword or a macro label.  That the two builds
     otherwise produce identical output is checked by lexing every input with both feature
-    builds of the implementation (and both configurations of the model). *)
+    builds of the implementation (and both configurations of the model).
+    For macro-free texts (release profile) [C18_macro_free_no_effect] proves the statement outright:
+    the result with the feature is the result without it and contains no MacroSep token (both are
+    the reference reading, C11). *)
 From Coq Require Import NArith List Bool.
-From SasLexer Require Import Gen.TokenType Gen.ErrorKind Gen.Channel Model.Base Model.Helpers Proofs.Tables.
+From SasLexer Require Import Gen.TokenType Gen.ErrorKind Gen.Channel Model.Base Model.Helpers Model.Core Model.Lexer3 Spec.RefLex Proofs.Tables
+     Proofs.OcBase Proofs.OcWhole Proofs.OcAll Proofs.MacroFree.
 Import ListNotations.
 
 Theorem C18_separator_guard : forall prev t, needs_macro_sep prev t = true ->
@@ -16,3 +20,12 @@ Print Assumptions C18_separator_guard.
 
 Example c18_example : needs_macro_sep (Some T_Identifier) T_KwmLet = true /\ needs_macro_sep (Some T_SEMI) T_KwmLet = false.
 Proof. split; reflexivity. Qed.
+
+Theorem C18_macro_free_no_effect : forall (src : list char), macro_free (body_of src) = true ->
+  let r0 := lex (mkCfg false false) src in
+  let r1 := lex (mkCfg false true) src in
+  map tv0 (b_toks (lr_buffer r1)) = map tv0 (b_toks (lr_buffer r0)) /\
+  map ev0 (lr_errors r1) = map ev0 (lr_errors r0) /\ b_lit (lr_buffer r1) = b_lit (lr_buffer r0) /\
+  Forall (fun t => t_type t <> T_MacroSep) (b_toks (lr_buffer r1)).
+Proof. exact mf_C18_macro_free_no_effect. Qed.
+Print Assumptions C18_macro_free_no_effect.
